@@ -93,6 +93,9 @@ mod imp {
         pub med: Option<MedEvidence>,
         /// Some: the scenario sends through the batch entry points (batch_json / batch_json_with_timeout); what it observed
         pub batch: Option<BatchEvidence>,
+        /// Some(s): `s` is the variant suffix of the class and of the signature site instead of the default (":batch" / ".batch" for
+        /// scenarios with batch evidence)
+        pub sig_site: Option<&'static str>,
     }
 
     /// Evidence counters of a scenario that uses the batch entry points as a way of sending.
@@ -133,6 +136,7 @@ mod imp {
                 ident: 0,
                 med: None,
                 batch: None,
+                sig_site: None,
             }
         }
         pub fn note_result(&mut self, r: &Result<(), String>) {
@@ -334,15 +338,17 @@ mod imp {
         rep.eval();
         let class = if out.med.is_some() {
             format!("{}:{}:medium_stream", out.endpoint, out.cause)
+        } else if let Some(site) = out.sig_site {
+            format!("{}:{}{}", out.endpoint, out.cause, site)
         } else if out.batch.is_some() {
             format!("{}:{}:batch", out.endpoint, out.cause)
         } else {
             format!("{}:{}", out.endpoint, out.cause)
         };
         if let Some(b) = &out.batch {
-            *t.counters.entry("batch_scenarios".into()).or_default() += 1;
+            *t.counters.entry(if out.sig_site.is_some() { "call_timeout_scenarios" } else { "batch_scenarios" }.into()).or_default() += 1;
             for (k, v) in &b.counters {
-                *t.counters.entry(if k.starts_with("batch") { k.clone() } else { format!("batch_{k}") }).or_default() += v;
+                *t.counters.entry(if k.starts_with("batch") || k.starts_with("call_timeout") { k.clone() } else { format!("batch_{k}") }).or_default() += v;
             }
         }
         if let Some(m) = &out.med {
@@ -386,7 +392,7 @@ mod imp {
         let nconns = out.conns.len();
         for c in out.conns {
             // scenarios that send through the batch entry points get a site of their own
-            let sig = |class: &str| format!("C05:{class}:{}:{}{}", out.endpoint, out.cause, if out.batch.is_some() { ".batch" } else { "" });
+            let sig = |class: &str| format!("C05:{class}:{}:{}{}", out.endpoint, out.cause, out.sig_site.unwrap_or(if out.batch.is_some() { ".batch" } else { "" }));
             let mut seen_tokens: HashMap<u64, usize> = HashMap::new();
             let mut tail_token: Option<u64> = None;
             let mut tail_desc = String::new();
@@ -581,6 +587,14 @@ mod imp {
                     sc!("async_client.batch.history.b", |c, r| batch::aclient_batch_history(c, r, Tcp, 4)),
                 ],
             },
+            // a lane of its own (its stalls last up to about 2 s; it runs beside the others and stays shorter than the longest of them)
+            Lane {
+                name: "blocking-call-timeout",
+                scenarios: vec![
+                    sc!("client.call_timeout.history.a", |c, r| batch::client_call_timeout_history(c, r, 5)),
+                    sc!("client.call_timeout.history.b", |c, r| batch::client_call_timeout_history(c, r, 6)),
+                ],
+            },
         ]
     }
 
@@ -602,7 +616,10 @@ mod imp {
              per-connection histories where the interrupted frame is one item of a batch (first/middle/last, batches > 64, small and > 8 KiB \
              items around it) or an ordinary send followed by a batch, the next send (batch / call / notify, same handle or clone, in flight or \
              after) and a peer resuming immediately / within / 1, 2, 3+ timeout periods after the stall / after the sender returned, plus \
-             concurrent batches and ordinary sends from several clones; every third client call goes out through call_typed_slice (BEVE u8 array of the same pattern bytes) instead of *_with_formats; distinct = (endpoint, fault, workload shape hash)",
+             concurrent batches and ordinary sends from several clones; blocking-client histories WITHOUT a socket write timeout where the large \
+             frame is sent by a *_with_timeout entry point (raw, typed slice, JSON, batch) whose timeout (50 ms..2 s) is shorter than the stall, \
+             the peer resuming before / shortly after / long after the deadline or once the call returned, the next send coming from another \
+             thread during the call or from the same thread / a clone after it; every third client call goes out through call_typed_slice (BEVE u8 array of the same pattern bytes) instead of *_with_formats; distinct = (endpoint, fault, workload shape hash)",
         );
         let mut rep = rep;
         if let Err(e) = u8_array_prefix_self_check().and_then(|_| batch::json_item_self_check()) {
@@ -706,6 +723,9 @@ mod imp {
         }
         if filter.is_none() && (rep.get_count("batch_calls_issued") == 0 || rep.get_count("batch_histories_with_interruption_in_effect") == 0) {
             rep.inconclusive("the batch entry points were never exercised with an interruption in effect");
+        }
+        if filter.is_none() && (rep.get_count("call_timeout_histories") == 0 || rep.get_count("call_timeout_calls_still_in_the_call_when_peer_resumed") + rep.get_count("call_timeout_calls_returned_while_peer_still_stalled") == 0) {
+            rep.inconclusive("blocking *_with_timeout calls were never the sender of a large frame to a stalled peer");
         }
         if rep.get_count("frames_verified_byte_exact") == 0 {
             rep.inconclusive("no frame was recorded");
